@@ -303,6 +303,10 @@ def bits(a):
     return np.ascontiguousarray(np.asarray(a, dtype=float)).tobytes()
 
 
+class Inconsistent(RuntimeError):
+    """as_dict / meta / as_dataset contradict each other (found without reference to the specification)."""
+
+
 def observe(path, with_dataset=True):
     """Parse with midgard; returns (dict of packed observation parts, summary dict) or raises."""
     from midgard import parsers
@@ -312,17 +316,17 @@ def observe(path, with_dataset=True):
     n = len(d.get("time", []))
     keys = ["time", "satellite", "sat_pos", "sat_clock_bias", "sat_pos_sigma", "sat_clock_bias_sigma", "system"]
     if n and sorted(d) != sorted(keys):
-        raise RuntimeError(f"as_dict keys {sorted(d)}")
+        raise Inconsistent(f"as_dict keys {sorted(d)}")
     for k in keys:
         if n and len(d[k]) != n:
-            raise RuntimeError(f"as_dict()[{k!r}] has {len(d[k])} entries, 'time' has {n}")
+            raise Inconsistent(f"as_dict()[{k!r}] has {len(d[k])} entries, 'time' has {n}")
     vals = []
     for i in range(n):
         vals += [float(x) for x in d["sat_pos"][i]] + [float(d["sat_clock_bias"][i])]
         vals += [float(x) for x in d["sat_pos_sigma"][i]] + [float(d["sat_clock_bias_sigma"][i])]
     for k in ("time", "satellite", "system"):
         if n and any((not isinstance(x, str)) or "\n" in x or x == "" for x in d[k]):
-            raise RuntimeError(f"as_dict()[{k!r}] contains an empty or non-text entry")
+            raise Inconsistent(f"as_dict()[{k!r}] contains an empty or non-text entry")
     meta = {k: v for k, v in p.meta.items() if not k.startswith("__")}
     obs = dict(times=pack("\n".join(d["time"]) if n else ""), sats=pack("\n".join(d["satellite"]) if n else ""),
                syss=pack("\n".join(d["system"]) if n else ""), vals="[" + ";".join(fl(x) for x in vals) + "]%float",
@@ -338,19 +342,19 @@ def observe(path, with_dataset=True):
         jd1 = np.atleast_1d(np.asarray(t.jd1, dtype=float))
         jd2 = np.atleast_1d(np.asarray(t.jd2, dtype=float))
         if not (len(jd1) == len(jd2) == n == ds.num_obs):
-            raise RuntimeError("dataset length differs from as_dict")
+            raise Inconsistent("dataset length differs from as_dict")
         if str(t.scale) != meta["time_sys"].lower():
-            raise RuntimeError(f"dataset time scale {t.scale} for time system {meta['time_sys']}")
+            raise Inconsistent(f"dataset time scale {t.scale} for time system {meta['time_sys']}")
         for k, v in meta.items():
             if ds.meta.get(k) != v:
-                raise RuntimeError(f"dataset meta[{k}] = {ds.meta.get(k)!r}, parser meta {v!r}")
+                raise Inconsistent(f"dataset meta[{k}] = {ds.meta.get(k)!r}, parser meta {v!r}")
         # the dataset fields are copies of the as_dict() values: bit-for-bit identity, no tolerance involved
         if bits(ds.sat_pos) != bits(np.array(d["sat_pos"])):
-            raise RuntimeError("dataset sat_pos is not the parsed sat_pos")
+            raise Inconsistent("dataset sat_pos is not the parsed sat_pos")
         if bits(ds.sat_clock_bias) != bits(np.array(d["sat_clock_bias"])):
-            raise RuntimeError("dataset sat_clock_bias is not the parsed sat_clock_bias")
+            raise Inconsistent("dataset sat_clock_bias is not the parsed sat_clock_bias")
         if [str(x) for x in ds.satellite] != list(d["satellite"]) or [str(x) for x in ds.system] != list(d["system"]):
-            raise RuntimeError("dataset satellite/system differ from the parsed ones")
+            raise Inconsistent("dataset satellite/system differ from the parsed ones")
         obs["jds"] = "(Some [" + ";".join(fl(a) + ";" + fl(b) for a, b in zip(jd1, jd2)) + "]%float)"
         summary["dataset_first_jd"] = [repr(float(jd1[0])), repr(float(jd2[0]))]
     return obs, summary
@@ -387,14 +391,16 @@ CORPUS = [
 
 
 def run(ctx):
+    regen_ok = True
     try:
         regen(ctx)
-    except Exception as e:  # a table that can no longer be reflected breaks the obligations below
+    except Exception as e:  # a parser definition that can no longer be reflected counts as a broken obligation
+        regen_ok = False
         ctx.notes.append(f"regen failed: {type(e).__name__}: {e}")
         ctx.log(f"regen failed: {type(e).__name__}: {e}")
-    ok = ctx.prove(THEOREMS)
+    ok = ctx.prove(THEOREMS) and regen_ok
     rng = ctx.rng
-    n_files = 160 if ctx.quick() else 1500
+    n_files = 110 if ctx.quick() else 1000
     files = [("corpus", None, ls) for ls in CORPUS]
     for _ in range(n_files):
         m = gen_model(rng, ctx.quick())
@@ -411,8 +417,11 @@ def run(ctx):
                    how="midgard.parsers.parse_file('sp3', path) on the file_text; as_dict(), meta, as_dataset()")
         try:
             obs, summary = observe(path)
+        except Inconsistent as e:
+            others.append(dict(rep, observed=f"{e}", what="as_dict(), meta and as_dataset() of one parse are inconsistent: " + str(e)))
+            continue
         except BaseException as e:  # SystemExit from log.fatal included
-            others.append(dict(rep, observed=f"{type(e).__name__}: {e}"))
+            others.append(dict(rep, observed=f"{type(e).__name__}: {e}", what=f"midgard raised {type(e).__name__} on a well-formed SP3 file"))
             continue
         rep["observed"] = summary
         cases.append(case_term(lines, obs))
@@ -436,7 +445,7 @@ def run(ctx):
     order = sorted(range(len(cases)), key=lambda i: len(cases[i]))
     shards, shard_idx, cur, cur_i, cur_size = [], [], [], [], 0
     for i in order:
-        if cur and cur_size + len(cases[i]) > 600_000:
+        if cur and cur_size + len(cases[i]) > (250_000 if ctx.quick() else 600_000):
             shards.append("List.flat_map check_pfile " + emit.lst(cur))
             shard_idx.append(cur_i)
             cur, cur_i, cur_size = [], [], 0
@@ -472,7 +481,7 @@ def run(ctx):
                 else:
                     ctx.violation(rep, what=f"midgard's result differs from the SP3 specification ({part})")
     for rep in others:
-        ctx.violation(rep, what="midgard raised on a well-formed SP3 file")
+        ctx.violation(rep, what=rep["what"])
     if not ok and not ctx.violations:
         ctx.obligations_broken(lambda: None)
     ctx.trusted += [
